@@ -104,9 +104,13 @@ fn check_offset(p: &Synth, local: i128, dis: Disambiguation, rng: &mut Rng, fail
     let mut offs: Vec<i64> = cands.iter().map(|c| ((local - c) / 1_000_000_000) as i64).collect();
     offs.push(p.initial); for (_, o) in &p.transitions { offs.push(*o); }
     offs.push(rng.range(-14 * 60, 14 * 60) as i64 * 60);
+    // offsets with a seconds part, both signs (the text then carries +-HH:MM:SS)
+    offs.push(rng.range(-14 * 3600, 14 * 3600) as i64);
+    offs.push(-(rng.range(1, 59) as i64));
     let off = offs[(rng.next() % offs.len() as u64) as usize];
     let base = format!("{:04}-{:02}-{:02}T{:02}:{:02}:{:02}.{:03}{:03}{:03}", dt.year(), dt.month(), dt.day(), dt.hour(), dt.minute(), dt.second(), dt.millisecond(), dt.microsecond(), dt.nanosecond());
-    let offtxt = format!("{}{:02}:{:02}", if off < 0 { '-' } else { '+' }, off.abs() / 3600, off.abs() / 60 % 60);
+    let offtxt = if off % 60 == 0 { format!("{}{:02}:{:02}", if off < 0 { '-' } else { '+' }, off.abs() / 3600, off.abs() / 60 % 60) }
+        else { format!("{}{:02}:{:02}:{:02}", if off < 0 { '-' } else { '+' }, off.abs() / 3600, off.abs() / 60 % 60, off.abs() % 60) };
     for (optname, opt) in [("use", OffsetDisambiguation::Use), ("ignore", OffsetDisambiguation::Ignore), ("prefer", OffsetDisambiguation::Prefer), ("reject", OffsetDisambiguation::Reject)] {
         for z in [false, true] {
             let text = format!("{base}{}[Synthetic/Zone]", if z { "Z".to_string() } else { offtxt.clone() });
